@@ -22,6 +22,18 @@ REPRESENTATIVE = ('adaptive_bounded_normal', 'ss_adaptive_bounded_normal', 'ss_a
                   'at_adaptive_normal_full', 'adaptive_bounded_eigenvector', 'adaptive_isotropic_solid_angle')
 
 
+NARROW = {'a': (0.0, 0.5), 'b': (0.0, 0.3)}
+
+
+def _ss_narrow(T, k, start):
+    # default unit covariance on boundaries narrower than 0.67: the initial width is ABOVE the default cap (1.49 x width)
+    from epsie import proposals as P
+    return P.SSAdaptiveBoundedNormal(['a', 'b'], NARROW, jump_interval=k, jump_interval_duration=T)
+
+
+LOCAL_FAMILIES = {'ss_adaptive_bounded_normal_narrow': ('ss', _ss_narrow)}
+
+
 def admissible(kind, s):
     """finite, positive scale parameters"""
     bad = []
@@ -77,6 +89,8 @@ def real_chain_run(name, T, beta, peaked, start_where, nsteps, rng):
         lo, hi = {'a': 0.0, 'b': 0.0}, {'a': 2 * math.pi, 'b': math.pi}
     elif 'discrete' in name:
         lo, hi = {'a': -3, 'b': 0}, {'a': 5, 'b': 20}
+    elif name.endswith('_narrow'):
+        lo, hi = {p: NARROW[p][0] for p in params}, {p: NARROW[p][1] for p in params}
     else:
         lo, hi = {p: adapt.BND2[p][0] for p in params}, {p: adapt.BND2[p][1] for p in params}
     centre = {p: (lo[p] + hi[p]) / 2 for p in params}
@@ -202,6 +216,7 @@ def run(seed, tier):
                 "non-trivial = a run of >= 300 adapted steps under an extremal history; distinct = distinct (class, duration, history)")
     witnesses(out)
     terms, meta = [], []
+    adapt.FAMILIES.update(LOCAL_FAMILIES)
     names = sorted(adapt.FAMILIES)
     durations = [30, 300, 3000] + ([30000] if thorough else [])
     hists = ['always', 'never', 'alternate', 'random']
@@ -217,6 +232,7 @@ def run(seed, tier):
                 decay = rng.choice([None, None, 0.5, 1.0, 2.0]) if kind0 == 'veitch' else None
                 desc = dict(proposal=name, adaptation_duration=T, history=hk, steps=n, adaptation_decay=decay)
                 fail = [None]
+                first_std = [None]
 
                 def on_step(kind, b, a, info):
                     out.evaluations += 1
@@ -226,6 +242,12 @@ def run(seed, tier):
                     bad = admissible(kind, a)
                     if bad and fail[0] is None:
                         fail[0] = ('inadmissible', 'after update %d: %s' % (info['i'] + 1, bad[0]))
+                    if kind == 'ss' and a.get('cap') is not None and fail[0] is None:
+                        if first_std[0] is None:
+                            first_std[0] = max(b['std'])
+                        if max(a['std']) > max(a['cap'], first_std[0]) * (1 + 1e-12):
+                            fail[0] = ('inadmissible', 'after update %d the width %r exceeds both the cap %r and the width it started with %r'
+                                       % (info['i'] + 1, max(a['std']), a['cap'], first_std[0]))
                     if info['called'] and info['i'] % 7 == 0 and kind in ('veitch', 'ss', 'at', 'eig', 'kappa'):
                         t = adapt.coq_case(kind, b, a, info['accepted'], info['ar'], info['x'])
                         if t:
@@ -276,6 +298,8 @@ def run(seed, tier):
     for f in failing[:10]:
         out.corr_failures.append(dict(note='adaptation model and real _update disagree', case=meta[f[0]]))
     out.count('coq_cases', len(terms))
+    for k_ in LOCAL_FAMILIES:
+        adapt.FAMILIES.pop(k_, None)
     return out
 
 
